@@ -123,6 +123,19 @@ impl<'a> PrettyPrinter<'a> {
             .then(|| item.children().find(|it| it.kind() == SyntaxKind::Markup))
             .flatten()
             .filter(|term| term.children().next().is_none());
+        // A term that ends with a backslash must keep it apart from the colon: `\:` is an escape.
+        let term_ends_with_backslash = item.kind() == SyntaxKind::TermItem
+            && (item.children())
+                .take_while(|it| it.kind() != SyntaxKind::Colon)
+                .filter(|it| it.kind() == SyntaxKind::Markup)
+                .last()
+                .is_some_and(|term| {
+                    let mut leaf = term;
+                    while let Some(last) = leaf.children().next_back() {
+                        leaf = last;
+                    }
+                    leaf.kind() == SyntaxKind::Linebreak
+                });
         self.convert_flow_like(ctx, item, |ctx, child| match child.kind() {
             SyntaxKind::Markup if empty_term.is_some_and(|term| std::ptr::eq(term, child)) => {
                 FlowItem::spaced(self.arena.nil())
@@ -130,7 +143,11 @@ impl<'a> PrettyPrinter<'a> {
             SyntaxKind::ListMarker | SyntaxKind::EnumMarker | SyntaxKind::TermMarker => {
                 FlowItem::spaced(self.arena.text(child.text().as_str()))
             }
-            SyntaxKind::Colon => FlowItem::tight_spaced(self.arena.text(child.text().as_str())),
+            SyntaxKind::Colon => FlowItem::new(
+                self.arena.text(child.text().as_str()),
+                term_ends_with_backslash,
+                true,
+            ),
             SyntaxKind::Space if child.text().has_linebreak() => {
                 FlowItem::tight(self.arena.hardline())
             }
